@@ -89,8 +89,10 @@ TCall ==
 TPrint ==
   /\ ~dead /\ IsEvent("Print")
   /\ LET ls == PrintCfg(root, 0)
-     IN /\ Len(ls) = Len(Ev.lines)
-        /\ \A i \in 1..Len(ls) : ls[i].text = Ev.lines[i]
+         (* an annotation the properties leave open (AnyV) makes the text unpredictable: not compared *)
+         open == \E i \in 1..Len(ls) : ls[i].kind = "cmt" /\ ls[i].text = Ind(ls[i].ind) \o "/* " \o AnyV \o " */"
+     IN open \/ (/\ Len(ls) = Len(Ev.lines)
+                 /\ \A i \in 1..Len(ls) : ls[i].text = Ev.lines[i])
   /\ UNCHANGED <<root, pcfg, dead, cbn>>
 
 Next == TInit \/ TReset \/ TSkip \/ TParse \/ TCall \/ TPrint
